@@ -136,6 +136,8 @@ package topic
 //@ spec pred M(t *Tree, f Lv, n Lv) = isnil(f) ? isnil(n) : (lhd(f) == t.wildcardSome ? isnil(ltl(f)) : (!isnil(n) && (lhd(f) == t.wildcardOne || lhd(f) == lhd(n)) && M(t, ltl(f), ltl(n))))
 //@ spec pred okf(t *Tree, f Lv) = isnil(f) || (lhd(f) == t.wildcardSome ? isnil(ltl(f)) : okf(t, ltl(f)))
 //@ spec func at(n *node, q Lv) *node = isnil(q) ? n : (n != nil && n.children != nil && has(n.children, lhd(q)) ? at(n.children[lhd(q)], ltl(q)) : nil)
+// matches(t, name): some path stored in tree t, read as a filter, matches name.
+//@ spec pred matches(t *Tree, name string) = exists q Lv {at(t.root, q)} :: stored(t.root, q) && M(t, q, lv(name, t.separator))
 //@ spec pred stored(n *node, q Lv) = at(n, q) != nil && isnode[at(n, q)] && len(at(n, q).values) > 0
 
 // ---------------------------------------------------------------- recursive walkers (called with the mutex held)
@@ -411,6 +413,7 @@ package topic
 //@   ensures [none] !anystop ==> v == nil && forall q Lv {at(t.root, q)} :: !(stored(t.root, q) && M(t, q, lv(topic, t.separator)))
 //@   ensures [released] held == old(held)
 //@   assumes [stored-value] v != nil ==> tvtype[t] == 0 || (dyn(v) == tvtype[t] && payload(v) != 0)
+//@   assumes [found-nonnil] anystop && tvtype[t] != 0 ==> v != nil
 //@   ensures [logged] lastfirst == payload(v)
 //@   ghostset lastfirst := payload(v)
 //@   modifies held, lastfirst, anystop, seen
